@@ -295,5 +295,45 @@ def r7_build_index_call(chk):
            'with ignoreErrors the failure must not be raised')
 
 
+def r8_index_accumulation(chk):
+    """every OID of every processed module is added to its section: the list under an OID is created only when the OID
+    is new and the module is appended unconditionally"""
+    model = chk.model
+    ci = model.cls('pysmi/codegen/jsondoc.py', 'JsonCodeGen')
+    o, fn = ci.find_method('genIndex')
+    mod = ci.mod
+    chk.doc('C18.R8', 'genIndex: for each of identity / enterprise / compliance / oids: `if oid not in section: '
+                      'section[oid] = []` (creation only when absent, by predicate-valuation reachability) followed '
+                      'by an unconditional section[oid].append(module) in the same block; no reset of a present key '
+                      '(common.contradictory_lookups)')
+    cfg = CFG(fn)
+    apps = [c for c in walk_no_nested(fn) if isinstance(c, ast.Call) and isinstance(c.func, ast.Attribute) and
+            c.func.attr == 'append' and isinstance(c.func.value, ast.Subscript)]
+    n = 0
+    for c in apps:
+        d, k = norm(c.func.value.value), norm(c.func.value.slice)
+        st = common.stmt_of(c)
+        from rules.C07 import block_of
+        blk = block_of(st)
+        inits = [x for x in blk if isinstance(x, ast.If) and any(
+            isinstance(y, ast.Assign) and norm(y.targets[0]) == '%s[%s]' % (d, k) for y in x.body)]
+        n += 1
+        chk.ob('C18.R8', 'genIndex/%s[%s]/create-then-append' % (d, k), len(inits) == 1 and
+               blk.index(inits[0]) < blk.index(st), where(mod, c), 'the list must be created (when absent) right before '
+               'the unconditional append in the same block')
+        for x in inits:
+            for y in x.body:
+                if isinstance(y, ast.Assign):
+                    common.requires(chk, 'C18.R8', 'genIndex/%s[%s]/created-only-when-absent' % (d, k), cfg, mod,
+                                    [cfg.node_of(y)], {'%s in %s' % (k, d): False})
+        loops_ = [l_ for l_ in walk_no_nested(fn) if isinstance(l_, ast.For) and norm(l_.iter).endswith('.items()') and
+                  isinstance(l_.target, ast.Tuple) and in_subtree(c, l_)]
+        mv = loops_[0].target.elts[0].id if loops_ and isinstance(loops_[0].target.elts[0], ast.Name) else None
+        chk.ob('C18.R8', 'genIndex/%s[%s]/appends-the-module' % (d, k), len(c.args) == 1 and mv is not None and
+               norm(c.args[0]) == mv, where(mod, c), norm(c))
+    chk.floor('C18.R8', 12, 'four sections')
+    common.contradictory_lookups(chk, 'C18.R8', ['pysmi/codegen/jsondoc.py'])
+
+
 RULES = [r1_componentwise_prefix, r2_attribute_chain, r3_sections_monotone, r4_ordering, r5_index_file_roundtrip,
-         r6_summary_objects, r7_build_index_call]
+         r6_summary_objects, r7_build_index_call, r8_index_accumulation]
